@@ -244,3 +244,23 @@ Definition detrend11 (x : list F) : list F :=
   let xf := repeat (hd (f0 O) x) 6 ++ x ++ repeat (last x (f0 O)) 6 in
   map (fun t => fsub O (nth t x (f0 O)) (median 5 (firstn 11 (skipn (S t) xf)))) (seq 0 (length x)).
 End DetrendModel.
+
+(* ---------------------------------------------------------------------- *)
+(* Geometry: which channels can be sources.  The raw weight of channel j for channel i is
+     exp(-(|(x_j - x_i) + 1j (y_j - y_i)| / 20) ** 1.3)
+   a decreasing function of the distance; it is >= 0.005 exactly when the SQUARED distance is at most
+   R2 = 5201 um^2 for integer squared distances (the distance at which the weight crosses 0.005 is
+   72.1206 um, 72.1206^2 = 5201.38; checked on every run for every coordinate difference that occurs).
+   Site coordinates of the probes are integers (um). *)
+Definition R2 : Z := 5201.
+Definition d2 (xs ys : list Z) (i j : nat) : Z :=
+  (nth j xs 0 - nth i xs 0) * (nth j xs 0 - nth i xs 0) +
+  (nth j ys 0 - nth i ys 0) * (nth j ys 0 - nth i ys 0).
+Definition in_range (xs ys : list Z) (i j : nat) : bool := d2 xs ys i j <=? R2.
+(* the channels a dead/noisy channel i is repaired from: not dead/noisy, within the radius *)
+Definition geo_sources (xs ys : list Z) (labels : list Z) (i : nat) : list nat :=
+  filter (fun j => negb (is_bad (nth j labels 0)) && in_range xs ys i j) (seq 0 (length xs)).
+(* the row of raw weights of channel i, from a weight function of (|dx|, |dy|) *)
+Definition geo_row {F : Type} (wf : Z -> Z -> F) (xs ys : list Z) (i : nat) : list F :=
+  map (fun j => wf (Z.abs (nth j xs 0 - nth i xs 0)) (Z.abs (nth j ys 0 - nth i ys 0)))
+      (seq 0 (length xs)).
